@@ -37,6 +37,7 @@ type tmpl struct {
 	Begin, MsgType string
 	Gen            string `json:",omitempty"` // name of a generated tests/fix44 type ("" = harness-built template)
 	Hdr, Body, Trl []*node
+	Unit           int `json:",omitempty"`
 }
 
 var types = []string{"String", "Int", "Uint", "Float", "Time", "Bool", "Raw"}
@@ -489,22 +490,23 @@ func templates(budget int, visit func(idx int, t *tmpl)) int {
 		{{Kind: 'k'}, {Kind: 'g', Kids: []*node{{Kind: 'k'}, {Kind: 'k'}}}},
 	}
 	trlForms := [][]*node{{}, {{Kind: 'k'}}}
-	for _, shape := range forests(budget, 3) {
+	for si, shape := range forests(budget, 3) {
 		for ti, typs := range typeOrders {
-			fi := (idx + ti) % len(framings)
-			hf := hdrForms[(idx/2+ti)%len(hdrForms)]
-			tf := trlForms[(idx+ti)%len(trlForms)]
+			fi := (si + ti) % len(framings)
+			hf := hdrForms[(si/2+ti)%len(hdrForms)]
+			tf := trlForms[(si/3+ti)%len(trlForms)]
 			fr := framings[fi]
 			t := &tmpl{BS: fr[0], BL: fr[1], MT: fr[2], CS: fr[3], Begin: "FIX.4.4", MsgType: "X",
 				Hdr: cloneNodes(hf), Body: cloneNodes(shape), Trl: cloneNodes(tf)}
 			used := map[string]bool{fr[0]: true, fr[1]: true, fr[2]: true, fr[3]: true}
-			next, tix := idx, 0
+			next, tix := si*3+ti*5, 0
 			hpool := []string{"34", "49", "56", "627", "628", "629"}
 			hn := 0
 			assign(t.Hdr, hpool, &hn, used, []string{"Int", "String", "String", "Int", "String"}, new(int))
 			tn := 0
 			assign(t.Trl, []string{"93", "89"}, &tn, used, []string{"Int", "String"}, new(int))
 			assign(t.Body, tagPool, &next, used, typs, &tix)
+			t.Unit = idx
 			visit(idx, t)
 			idx++
 		}
